@@ -46,7 +46,7 @@ DaysOffset(n) == IF n = 0 THEN ""
 
 \* --- year ranges --------------------------------------------------------------
 ShowYear(r) == ToString(r.a)
-               \o (IF r.b = r.a THEN ""
+               \o (IF r.b = r.a /\ r.step = 1 THEN ""
                    ELSE IF r.b = 9999 /\ r.step = 1 /\ r.plus THEN "+"
                    ELSE "-" \o ToString(r.b))
                \o (IF r.step # 1 THEN "/" \o ToString(r.step) ELSE "")
